@@ -777,6 +777,9 @@ def _dense(g):
     return len(g["nodes"]) > 6 and len(g["edges"]) > 2 * len(g["nodes"])
 
 
+KEY_N0_N1 = "nauty-empty-selection:graph_signature:n0-vs-n1"
+
+
 NAUTY_CONFIGS = [
     (["element", "aromatic", "charge", "hcount"], ["order"]),
     (["element", "aromatic", "charge", "hcount"], ["standard_order", "order"]),
@@ -820,9 +823,12 @@ def _oracle_nauty_direct(case, fails):
             iso = _iso(v0, _sel_views(H, na, ea)) is not None
             same = nc.graph_signature(H) == gs0
             if same != iso:
+                # known finding (theorem C08_nauty_empty_selection_graph_signature_refuted): with no node attribute selected the
+                # label of the empty graph and of a single node are both "||"
+                key = KEY_N0_N1 if (same and not na and {P0.number_of_nodes(), H.number_of_nodes()} == {0, 1}) else None
                 fails.append(_fail("sig-sound/nauty" if same else "nauty-invariant",
                                    "NautyCanonicalizer(%r, %r).graph_signature %s but the graphs are %sisomorphic on the selected attributes; A=%r B=%r"
-                                   % (na, ea, "equal" if same else "different", "" if iso else "NOT ", pres[0], h)))
+                                   % (na, ea, "equal" if same else "different", "" if iso else "NOT ", pres[0], h), key=key))
         if len(fails) >= 4:
             return
     # canonical_form options: positional / keyword, every combination of outputs consistent with the plain call
@@ -1505,11 +1511,14 @@ def _degenerate_cases(rng):
         ("ids-10-11-9", {"nodes": [[10, _node()], [9, _node()], [11, _node()], [100, _node()]],
                          "edges": [[10, 9, {"order": 1.0}], [9, 11, {"order": 2.0}], [11, 100, {"order": 1.0}]]}),
     ]
+    # known finding: NautyCanonicalizer(None, None).graph_signature cannot tell the empty graph from a single node
+    out_known = _graph_case("degenerate", {"nodes": [], "edges": []}, rng, nalts=1, nothers=0, name="degenerate/empty-vs-single")
+    out_known["others"] = [{"nodes": [[1, _node()]], "edges": []}]
     # eight equal atoms whose search-tree leaves lie at different depths: canonical_form(max_depth=2) returns a leaf AND early_stop
     gs.append(("uneven-leaf-depth", {"nodes": [[i, _node()] for i in range(1, 9)],
                                      "edges": [[u, v, {"order": 1.0}] for u, v in ((1, 4), (1, 8), (2, 4), (2, 5), (3, 6), (3, 7), (4, 6),
                                                                                    (4, 8), (5, 6), (6, 7))]}))
-    return [_graph_case("degenerate", g, rng, nalts=2, nothers=(1 if g["nodes"] else 0), name="degenerate/" + nm) for nm, g in gs]
+    return [_graph_case("degenerate", g, rng, nalts=2, nothers=(1 if g["nodes"] else 0), name="degenerate/" + nm) for nm, g in gs] + [out_known]
 
 
 def _missing_attr_cases(rng):
